@@ -193,3 +193,66 @@ def _result_used_elsewhere(fn, xg, call, b0, j0):
             elif x["e"] == "call" and any(c.get("id") == cid for a in x.get("a", []) for c in calls_in(a)):
                 return True
     return False
+
+
+def _reads_var(e, v):
+    for kk, val in e.items():
+        if kk in ("l", "e", "mac", "t", "n"):
+            continue
+        if kk == "lhs" and e.get("e") == "asg" and e.get("op") == "=":
+            l = strip_casts(val)
+            if isinstance(l, dict) and l.get("k") == "var":
+                continue
+        st = [val]
+        while st:
+            n = st.pop()
+            if isinstance(n, dict):
+                if n.get("k") == "var" and n.get("n") == v:
+                    return True
+                st.extend(x for x in n.values() if isinstance(x, (dict, list)))
+            elif isinstance(n, list):
+                st.extend(n)
+    return False
+
+
+def overwritten_unread(P, f, names):
+    """[(b, i, event, where)]: `v = <status call>` into a plain local after
+    which some path reaches another plain assignment to v (possibly the same
+    one, round a loop) without v having been read in between: the first
+    status is lost on that path, whatever it was."""
+    out = []
+    for b, i, e in f.events("asg"):
+        r = strip_casts(e["rhs"])
+        l = strip_casts(e["lhs"])
+        if not (isinstance(r, dict) and r.get("k") == "call" and _name(r) in names and isinstance(l, dict) and
+                l.get("k") == "var" and l.get("kind") == "local" and e["op"] == "="):
+            continue
+        v = l["n"]
+        seen = set()
+        st = [(b, i + 1)]
+        bad = None
+        while st and bad is None:
+            bb, ii = st.pop()
+            blk = f.blocks[bb]
+            stop = False
+            for j in range(ii, len(blk.ev)):
+                x = blk.ev[j]
+                if _reads_var(x, v):
+                    stop = True
+                    break
+                if x["e"] == "asg" and x["op"] == "=" and key(x["lhs"]) == v:
+                    bad = x["l"]
+                    stop = True
+                    break
+            if stop:
+                continue
+            t = blk.term
+            if t is not None and "cond" in t and v in vars_in(t["cond"]):
+                continue
+            for s in blk.succ:
+                if s is not None and s not in seen:
+                    seen.add(s)
+                    st.append((s, 0))
+        if bad is not None:
+            out.append((b, i, e, bad))
+    return out
